@@ -46,7 +46,8 @@ theorem absent_key_null_no_error (s : SchemaD) (root : PVal) (execSub) (parent :
   have hw : dataWorld root parent fd.name (path ++ [.key key]) a = .val .null := by
     simp [dataWorld, hp, defaultResolver, habs, toRVal]
   simp only [resolveField, ha, hw]
-  exact nullable_null_no_error s execSub (node :: more) fd.type _ hn
+  rw [nullable_null_no_error s execSub (node :: more) fd.type _ hn]
+  rfl
 
 /-- the same for a key that is present with the value None -/
 theorem present_none_null_no_error (s : SchemaD) (root : PVal) (execSub) (parent : String) (path : Path) (key : String)
@@ -57,7 +58,8 @@ theorem present_none_null_no_error (s : SchemaD) (root : PVal) (execSub) (parent
   have hw : dataWorld root parent fd.name (path ++ [.key key]) a = .val .null := by
     simp [dataWorld, hp, defaultResolver, hpres, toRVal]
   simp only [resolveField, ha, hw]
-  exact nullable_null_no_error s execSub (node :: more) fd.type _ hn
+  rw [nullable_null_no_error s execSub (node :: more) fd.type _ hn]
+  rfl
 
 /-! non-vacuity: a dict lacking `items`, an object with an attribute and a callable of other names -/
 example : defaultResolver (.dict [("keys", .leaf (.str "k"))]) "items" = .value .none := by
